@@ -574,10 +574,9 @@ class ClockTask():
     def _wakeup(self, time):
         try:
             _libsc3.main._update_logical_time(time)
-            beats = self.clock.secs2beats(time)
             delta = self.task.__awake__(self.clock)
             if isinstance(delta, (int, float)) and not isinstance(delta, bool):
-                self.beats = beats + delta
+                self.beats = self.beats + delta
                 self.scheduler.add(self.clock.beats2secs(self.beats), self)
         except stm.StopStream:
             pass
